@@ -202,7 +202,7 @@ theorem sizePreamble_total (len : Nat) (ext : Bool) (lbP ubP : Option Int) (x : 
     (hok : strOK' lbP ubP = true)
     (h : sizeConstraint len ext lbP ubP = some x) :
     ∃ pre lb ub sr, sizePreamble len ext lbP ubP = .ok (pre, lb, ub, sr) ∧ 0 ≤ lb ∧
-      ((sr = 1 ∧ (len : Int) = ub) ∨
+      ((sr = 1 ∧ (len : Int) = ub ∧ 0 < ub) ∨
        (sr ≠ 1 ∧ lb ≤ len ∧ ((sr = -1 ∧ lb = 0) ∨
           (2 ≤ sr ∧ sr ≤ 65536 ∧ ((len - lb.toNat : Nat) : Int) < sr ∧ len - lb.toNat < 16384)))) := by
   unfold sizeConstraint at h
@@ -217,7 +217,7 @@ theorem sizePreamble_total (len : Nat) (ext : Bool) (lbP ubP : Option Int) (x : 
       exact ⟨[], 0, -1, -1, rfl, by decide, Or.inr ⟨by decide, by omega, Or.inl ⟨rfl, rfl⟩⟩⟩
     | some u =>
       simp only [strOK', Bool.and_eq_true, Bool.or_eq_true, decide_eq_true_eq] at hok
-      obtain ⟨⟨hl0, hlu⟩, hspan⟩ := hok
+      obtain ⟨⟨⟨_hu0, hl0⟩, hlu⟩, hspan⟩ := hok
       dsimp only at h ⊢
       have hbad : ¬ (l < 0 ∨ u < l) := by omega
       simp only [hbad, if_false] at h
@@ -232,7 +232,7 @@ theorem sizePreamble_total (len : Nat) (ext : Bool) (lbP ubP : Option Int) (x : 
             exact Or.inr ⟨by decide, by omega, Or.inl ⟨trivial, trivial⟩⟩
           · simp only [hbig, if_false]
             by_cases hsr : u - l + 1 = 1
-            · exact Or.inl ⟨hsr, by omega⟩
+            · exact Or.inl ⟨hsr, by omega, by omega⟩
             · exact Or.inr ⟨hsr, by omega, Or.inr ⟨by omega, by omega, by omega, by omega⟩⟩
       · simp only [hin, if_false] at h
         by_cases hx : ext = true ∧ (len : Int) > u
@@ -253,9 +253,10 @@ theorem octet_string_total (pos : Nat) (bytes : Bytes) (ext : Bool) (lbP ubP : O
     unfold appendOctetString
     rw [hsp]
     dsimp only
-    rcases hcase with ⟨hsr, hub⟩ | ⟨hsr, hge, hdom⟩
+    rcases hcase with ⟨hsr, hub, hpos⟩ | ⟨hsr, hge, hdom⟩
     · have : ¬ (bytes.length : Int) ≠ ub := by omega
-      simp only [hsr, if_true, this, if_false]
+      have hne : ¬ (bytes.length = 0 ∧ (pos + pre.length) % 8 ≠ 0) := by omega
+      simp only [hsr, if_true, this, hne, if_false]
       split <;> exact ⟨_, rfl⟩
     · have : ¬ (bytes.length : Int) < lb := by omega
       simp only [hsr, if_false, this]
@@ -291,9 +292,10 @@ theorem bit_string_total (pos : Nat) (bytes : Bytes) (len : Nat) (ext : Bool) (l
     simp only [hnp, if_false]
     rw [hsp]
     dsimp only
-    rcases hcase with ⟨hsr, hub⟩ | ⟨hsr, hge, hdom⟩
+    rcases hcase with ⟨hsr, hub, hpos⟩ | ⟨hsr, hge, hdom⟩
     · have : ¬ (len : Int) ≠ ub := by omega
-      simp only [hsr, if_true, this, if_false]
+      have hne : ¬ (len = 0 ∧ (pos + pre.length) % 8 ≠ 0) := by omega
+      simp only [hsr, if_true, this, hne, if_false]
       split <;> exact ⟨_, rfl⟩
     · have : ¬ (len : Int) < lb := by omega
       simp only [hsr, if_false, this]
